@@ -1565,41 +1565,191 @@ def translate():
 # A sample of every generator is therefore run first in a forked child; if the child is killed, the case it died on is
 # the failing input and nothing else of this run calls the implementation in-process.
 # ----------------------------------------------------------------------------------------
-def _run_forked(cases):
-    """None when the child ran all cases, else (index of the case it died on, signal or exit status)."""
-    r, w = os.pipe()
+def _forked(fn):
+    """run `fn(report)` in a forked child; the child calls `report(obj)` (a JSON-serialisable object) before every
+    step that calls the implementation.  Returns None when the child ran through, else (last reported object, signal
+    or exit status) — the step the interpreter died on."""
+    fd, path = tempfile.mkstemp(prefix='c03_trace_')
+    os.close(fd)
     pid = os.fork()
     if pid == 0:
         code = 0
         try:
-            os.close(r)
-            for k, case in enumerate(cases):
-                os.write(w, b'%d\n' % k)
-                try:
-                    nl = _build(case, _system(case), case.get('init') or 20, case.get('delta') or 10, k % 2)
-                    _rows(nl)
-                except Exception:  # noqa  (exceptions are handled by the in-process run)
-                    pass
-            os.write(w, b'done\n')
+            with open(path, 'w') as f:
+                def report(obj):
+                    f.seek(0)
+                    f.truncate()
+                    f.write(json.dumps(obj))
+                    f.flush()
+                fn(report)
+                report('done')
         except BaseException:  # noqa
             code = 3
         finally:
             os._exit(code)
-    os.close(w)
-    data = b''
-    while True:
-        chunk = os.read(r, 65536)
-        if not chunk:
-            break
-        data += chunk
-    os.close(r)
     _, status = os.waitpid(pid, 0)
-    lines = data.decode().split()
-    if lines and lines[-1] == 'done' and os.WIFEXITED(status) and os.WEXITSTATUS(status) == 0:
+    try:
+        with open(path) as f:
+            txt = f.read()
+        last = json.loads(txt) if txt else None
+    except Exception:  # noqa
+        last = None
+    finally:
+        os.unlink(path)
+    if last == 'done' and os.WIFEXITED(status) and os.WEXITSTATUS(status) == 0:
         return None
-    idx = [int(x) for x in lines if x != 'done']
     sig = os.WTERMSIG(status) if os.WIFSIGNALED(status) else f'exit {os.WEXITSTATUS(status)}'
-    return (idx[-1] if idx else 0), sig
+    return last, sig
+
+
+def _run_forked(cases):
+    """None when the child ran all cases, else (index of the case it died on, signal or exit status)."""
+    def body(report):
+        for k, case in enumerate(cases):
+            report(k)
+            try:
+                system = _system(dict(case))
+                _rows(_build(case, system, case.get('init') or 20, case.get('delta') or 10, k % 2))
+                if k % 4 == 0:
+                    _rows(_build(case, system, 1, 1, 1 - k % 2))
+            except Exception:  # noqa  (exceptions are handled by the in-process run)
+                pass
+    res = _forked(body)
+    if res is None:
+        return None
+    return (res[0] if isinstance(res[0], int) else 0), res[1]
+
+
+class _NullCtx:
+    """stands in for the check context in a pre-flight child: nothing is recorded."""
+    class _S:
+        def case(self, *a, **k):
+            pass
+
+    def __init__(self):
+        self.stats = self._S()
+        self.notes, self.extra, self.violations, self.disagreements = [], {}, [], []
+        self.driver = None
+
+    def violate(self, *a, **k):
+        pass
+
+    def disagree(self, *a, **k):
+        pass
+
+
+_TRACE_FILE = None
+_RESULT_FILE = None
+
+
+def _trace(obj):
+    """inside an isolated phase: note the step that is about to call the implementation (a replay payload)."""
+    if _TRACE_FILE is not None:
+        _TRACE_FILE.seek(0)
+        _TRACE_FILE.truncate()
+        _TRACE_FILE.write(json.dumps(obj))
+        _TRACE_FILE.flush()
+
+
+def _checkpoint(ctx, done=False, exc=None):
+    """inside an isolated phase: hand what has been recorded so far to the parent process (atomic replace)."""
+    if _RESULT_FILE is None:
+        return
+    import pickle
+    data = {'stats': ctx.stats, 'disagreements': ctx.disagreements, 'violations': ctx.violations, 'notes': ctx.notes,
+            'extra': ctx.extra, 'rng': ctx.rng.getstate(), 'driver_n': getattr(ctx.driver, 'n', 0), 'done': done,
+            'exc': exc}
+    with open(_RESULT_FILE + '.tmp', 'wb') as f:
+        pickle.dump(data, f)
+    os.replace(_RESULT_FILE + '.tmp', _RESULT_FILE)
+
+
+def _isolated(ctx, fn, what):
+    """Run `fn(ctx)` in a forked child and merge what it recorded into `ctx`: the compiled code under test runs with
+    bounds checks off, an index slip can corrupt the heap and take the interpreter down at any later moment (even at
+    exit), so the process that reports the verdict never executes it.  The child checkpoints its records after every
+    phase and notes every step before it calls the implementation; when it dies, the records up to the last
+    checkpoint are kept and the step it died in is reported as a `crash` violation with its replayable input.
+    The Lean driver is shared through the inherited pipes (strict request/reply, so the parent finds it in sync after
+    a normal return; after a death it is restarted)."""
+    global _TRACE_FILE, _RESULT_FILE
+    import pickle
+    import sys
+    import traceback
+    d = tempfile.mkdtemp(prefix='c03_iso_')
+    res, trc = os.path.join(d, 'result.pkl'), os.path.join(d, 'trace.json')
+    sys.stdout.flush()
+    sys.stderr.flush()
+    pid = os.fork()
+    if pid == 0:
+        code = 0
+        try:
+            _RESULT_FILE = res
+            _TRACE_FILE = open(trc, 'w')
+            try:
+                fn(ctx)
+                _checkpoint(ctx, done=True)
+            except BaseException as e:  # noqa  (handed to the parent, which re-raises it)
+                _checkpoint(ctx, done=True, exc=(type(e).__name__, str(e), traceback.format_exc(),
+                                                 isinstance(e, cm.InfraError)))
+            sys.stdout.flush()
+            sys.stderr.flush()
+        except BaseException:  # noqa
+            code = 3
+        finally:
+            os._exit(code)
+    _, status = os.waitpid(pid, 0)
+    data, last = None, None
+    try:
+        if os.path.exists(res):
+            with open(res, 'rb') as f:
+                data = pickle.load(f)
+        if os.path.exists(trc):
+            txt = open(trc).read()
+            last = json.loads(txt) if txt else None
+    except Exception:  # noqa
+        pass
+    finally:
+        import shutil
+        shutil.rmtree(d, ignore_errors=True)
+    if data is not None:
+        ctx.stats = data['stats']
+        ctx.disagreements[:] = data['disagreements']
+        ctx.violations[:] = data['violations']
+        ctx.notes[:] = data['notes']
+        ctx.extra.clear()
+        ctx.extra.update(data['extra'])
+        ctx.rng.setstate(data['rng'])
+        if ctx.driver is not None:
+            ctx.driver.n = data['driver_n']
+    ok = data is not None and data['done'] and os.WIFEXITED(status) and os.WEXITSTATUS(status) == 0
+    if ok:
+        if data['exc'] is not None:
+            name, msg, tb, infra = data['exc']
+            print(tb, flush=True)
+            if infra:
+                raise cm.InfraError(msg)
+            raise RuntimeError(f'{name}: {msg}')
+        return
+    sig = os.WTERMSIG(status) if os.WIFSIGNALED(status) else f'exit {os.WEXITSTATUS(status)}'
+    ctx.extra['_canary'] = True
+    if not any(f.key == 'crash' for f in ctx.violations):
+        if isinstance(last, dict) and last.get('op') == 'sequence':
+            ctx.violate('crash', f'a neighbor-list call on one System object after operations '
+                        f'{[x["op"] for x in last.get("steps", [])]} terminates the interpreter (signal {sig}) [{what}]', last)
+        elif isinstance(last, dict) and 'case' in last:
+            c = last['case']
+            ctx.violate('crash', f'the interpreter is terminated (signal {sig}) while / after building the neighbor list '
+                        f'[{what}]: natoms={len(c["pos"])}, pbc={c["pbc"]}, cutoff={c["cutoff"]!r}, initialsize='
+                        f'{c.get("init")}, deltasize={c.get("delta")}, vects={c["vects"]}', last)
+        else:
+            ctx.violate('crash', f'the interpreter is terminated (signal {sig}) during {what}', last or {'op': 'crash'})
+    if ctx.driver is not None:
+        try:
+            ctx.driver.close()
+        except Exception:  # noqa
+            pass
+        ctx.driver = cm.Driver('drv_c03')
 
 
 def canary(ctx):
@@ -1738,6 +1888,10 @@ def _correspond_case(ctx, case, name, tmpdir, roundtrip):
 
 
 def correspond(ctx):
+    _isolated(ctx, _correspond, 'the correspondence run')
+
+
+def _correspond(ctx):
     rng = ctx.rng
     if canary(ctx):
         return
@@ -1754,11 +1908,13 @@ def correspond(ctx):
             t0 = time.time()
             for it in range(count):
                 case = gen(rng, it)
+                _trace(_payload(case, stage='crash'))
                 _correspond_case(ctx, case, gen.__name__, tmpdir, it % 2 == 0)
             ph['corr:' + gen.__name__] = round(time.time() - t0, 1)
+            _checkpoint(ctx)
         t0 = time.time()
         for it in range(ctx.n(40, 800)):
-            run_sequence(ctx, rng, it, 'corr', tmpdir)
+            run_sequence(ctx, rng, it, 'corr', tmpdir, trace=_trace)
         ph['corr:sequence'] = round(time.time() - t0, 1)
     # text format: hand-made rows (long lists, empty lists, many digits) through dump/load of the model only
     _model_text_selfcheck(ctx, rng)
@@ -2029,7 +2185,7 @@ def _seq_compare(ctx, start, seq_ops, observed):
             return
 
 
-def run_sequence(ctx, rng, it, mode, tmpdir, script=None):
+def run_sequence(ctx, rng, it, mode, tmpdir, script=None, trace=None):
     """query -> one small change -> query ... on one object. `mode`: 'corr' compares every answer with the Lean model
     evaluated on the state read back from the object at that moment, 'oracle' with the exact clauses.
     `script` (replay): {'start': case, 'steps': [{'op':..., 'via':...}, ...]}."""
@@ -2074,6 +2230,8 @@ def run_sequence(ctx, rng, it, mode, tmpdir, script=None):
                 return
         case = _state_case(system, q)
         n = len(case['pos'])
+        if trace is not None:
+            trace(payload)
         try:
             nl, rows, coord, cap = _query(system, q, via)
         except Exception as e:  # noqa
@@ -2095,7 +2253,7 @@ def run_sequence(ctx, rng, it, mode, tmpdir, script=None):
                 ctx.violate('seq-' + key, f'{what_q}: {what} [state of the object at the time of the call is in the replay]',
                             payload)
                 return
-        else:
+        elif mode == 'corr':
             init, delta = q['init'] or 20, q['delta'] or 10
             seq_ops.extend(_diff_ops(last_state, case))
             seq_ops.append(f'Q {cm.fr(case["cutoff"])} {init} {delta}')
@@ -2273,6 +2431,7 @@ def scale_checks(ctx, rng, tmpdir, broken):
     if ctx.thorough or broken:
         plans += [(47, (True, True, True), 1, 1), (48, (True, False, True), 20, 10), (50, (False, True, False), 3, 2)]
     for m, pbc, init, delta in plans:
+        _trace({'op': 'lattice', 'm': m, 'pbc': list(pbc), 'init': init, 'delta': delta})
         check_lattice(ctx, m, pbc, init, delta, tmpdir)
         if len(ctx.violations) >= 6:
             return
@@ -2377,6 +2536,10 @@ def _dmag_crosscheck(ctx, case, system, rows, cls):
 
 
 def search(ctx, broken):
+    _isolated(ctx, lambda c: _search(c, broken), 'the failing-input search')
+
+
+def _search(ctx, broken):
     rng = random.Random(ctx.seed * 7919 + 3)
     if canary(ctx):
         return
@@ -2395,14 +2558,16 @@ def search(ctx, broken):
             t0 = time.time()
             for it in range(count):
                 case = gen(rng, it)
+                _trace(_payload(case, stage='crash'))
                 _search_case(ctx, case, kind, kind, full=(kind != 'hunt' or it % 8 == 0),
                              tmpdir=tmpdir if it % 3 == 0 else None)
                 if len(ctx.violations) >= 6:
                     return
             ph['oracle:' + kind] = round(time.time() - t0, 1)
+            _checkpoint(ctx)
         t0 = time.time()
         for it in range(ctx.n(150, 3000) * mult):
-            run_sequence(ctx, rng, it, 'oracle', tmpdir)
+            run_sequence(ctx, rng, it, 'oracle', tmpdir, trace=_trace)
             if len(ctx.violations) >= 6:
                 return
         ph['oracle:sequence'] = round(time.time() - t0, 1)
@@ -2419,25 +2584,40 @@ def _exhaustive_small(ctx):
     q = 4
     L = [2.0, 2.5, 3.0]
     pts = [[x / q * 1.0, y / q * 1.0, z / q * 1.0] for x in range(0, 9, 2) for y in range(0, 11, 2) for z in range(0, 13, 3)]
+    cases = []
     for cutoff in (1.0, 1.25, 2.0):
         for pbc in ALL_PBC:
             for a in range(0, len(pts), 3):
                 for b in range(a + 1, len(pts), 5):
-                    case = _case(np.diag(L), [0.25, -0.5, 1.0], [[pts[a][k] + [0.25, -0.5, 1.0][k] for k in range(3)],
-                                                                   [pts[b][k] + [0.25, -0.5, 1.0][k] for k in range(3)]],
-                                 pbc, cutoff, 'grid', 1, 1)
-                    _search_case(ctx, case, 'exhaustive2', 'exh', False)
-                    if len(ctx.violations) >= 6:
-                        return
+                    cases.append(_case(np.diag(L), [0.25, -0.5, 1.0],
+                                       [[pts[a][k] + [0.25, -0.5, 1.0][k] for k in range(3)],
+                                        [pts[b][k] + [0.25, -0.5, 1.0][k] for k in range(3)]], pbc, cutoff, 'grid', 1, 1))
+    for case in cases:
+        _trace(_payload(case, stage='crash'))
+        _search_case(ctx, case, 'exhaustive2', 'exh', False)
+        if len(ctx.violations) >= 6:
+            return
 
 
 def replay(ctx, payload):
+    _isolated(ctx, lambda c: _replay(c, payload), 'the replay')
+
+
+def _replay(ctx, payload):
     r = payload.get('replay', {})
     if r.get('op') == 'sequence':
         with tempfile.TemporaryDirectory(prefix='c03_') as tmpdir:
+            res = _forked(lambda report: run_sequence(_NullCtx(), random.Random(0), 0, 'preflight', tmpdir, script=r,
+                                                      trace=report))
+            if res is not None:
+                ctx.violate('crash', f'the operation sequence terminates the interpreter (signal {res[1]})', r)
+                return
             run_sequence(ctx, random.Random(0), 0, 'oracle', tmpdir, script=r)
             if ctx.driver is not None:
                 run_sequence(ctx, random.Random(0), 0, 'corr', tmpdir, script=r)
+        return
+    if r.get('op') in ('sequence-crash', 'crash'):
+        _search(ctx, True)
         return
     if r.get('op') == 'large':
         with tempfile.TemporaryDirectory(prefix='c03_') as tmpdir:
@@ -2449,7 +2629,7 @@ def replay(ctx, payload):
         return
     case = r.get('case')
     if not case:
-        search(ctx, True)
+        _search(ctx, True)
         return
     res = _run_forked([case])
     if res is not None:
@@ -2464,6 +2644,9 @@ def replay(ctx, payload):
     print('pairs below cutoff (exact):', [k for k, v in cls.items() if v == 'in'])
     for key, what in clauses(case, rows, coord, cls):
         ctx.violate(key, what, _payload(case))
+    bad = _object_clauses(nl, rows, coord)
+    if bad:
+        ctx.violate('object', bad, _payload(case))
     if 'init2' in r:
         nl2 = _build(case, system, r['init2'], r['delta2'], 1)
         if _rows(nl2) != rows:
